@@ -45,28 +45,28 @@ type sizePoint struct {
 }
 
 type modelState struct {
-	idents   map[string]*Ident
-	allocs   map[string]*Alloc
-	adminRel map[string]bool         // ip|key -> an administrator asked for its release
-	poolSize map[string][]sizePoint // pool name -> history of sizes in API truth
-	poolView map[string][]sizePoint // pool name -> history of sizes in the lister view
-	filterWin map[string]*filterWindow // pod uid -> open Filter window
-	foreignDelete map[string]int // app/pool prefix -> step of the last delete under it by the release API, a reload or the world
-	replicaHist   map[*App][]sizePoint
+	idents            map[string]*Ident
+	allocs            map[string]*Alloc
+	adminRel          map[string]bool          // ip|key -> an administrator asked for its release
+	poolSize          map[string][]sizePoint   // pool name -> history of sizes in API truth
+	poolView          map[string][]sizePoint   // pool name -> history of sizes in the lister view
+	filterWin         map[string]*filterWindow // pod uid -> open Filter window
+	foreignDelete     map[string]int           // app/pool prefix -> step of the last delete under it by the release API, a reload or the world
+	replicaHist       map[*App][]sizePoint
 	lostReservation   map[string]string
 	lostReservationIP map[string]string
-	mixedUIDs     map[string]bool // identity -> its key held IPs recorded for two different incarnations at some instant
+	mixedUIDs         map[string]bool // identity -> its key held IPs recorded for two different incarnations at some instant
 }
 
 type filterWindow struct {
-	app          *App
-	hadReserve   bool // an unowned IP was stored under the app/pool prefix at every step of the window
-	tookReserved bool // the pod was given one of those reserved IPs during this attempt
-	tookIP       string
-	gateClosed   bool // the deployment's pods held >= replicas IPs at every step of the window
+	app              *App
+	hadReserve       bool // an unowned IP was stored under the app/pool prefix at every step of the window
+	tookReserved     bool // the pod was given one of those reserved IPs during this attempt
+	tookIP           string
+	gateClosed       bool // the deployment's pods held >= replicas IPs at every step of the window
 	hadIPAfterFilter bool // the identity held an IP when the filter call returned
-	closed       bool
-	start        int
+	closed           bool
+	start            int
 }
 
 func newModel() *modelState {
